@@ -748,7 +748,7 @@ class Unit:
                 raise ExtractError('%s: outline %s: a hole may occur only once in expr' % (key, o.name))
             rx = re.escape(pat)
             for h in sorted(holes, key=len, reverse=True):
-                rx = rx.replace(re.escape('$' + h), r'(?P<%s>[A-Za-z_][\w.]*)' % h, 1)
+                rx = rx.replace(re.escape('$' + h), r'(?P<%s>[A-Za-z_][\w.]*|\d+)' % h, 1)      # an operand: identifier / field path / integer literal
             m = re.search(rx, flat)
             if not m or (idx[m.start()] > 0 and (t[idx[m.start()] - 1].isalnum() or t[idx[m.start()] - 1] in '_.')):
                 raise ExtractError('%s: lost anchor: outlined expression `%s` not found' % (key, norm_ws(expr)[:80]))
@@ -948,6 +948,11 @@ class Unit:
         n = len(t)
         while i < n:
             ch = t[i]
+            if ch == '/' and t.startswith('/*', i):
+                # clause markers `/*@CL key|..*/` injected by earlier steps (a key may contain the word `for`: `EvenY for KeyPackage`)
+                j = t.find('*/', i + 2)
+                i = n if j < 0 else j + 2
+                continue
             if ch in '"\'br':
                 e = skip_literal(t, i)
                 if e is not None:
